@@ -15,14 +15,14 @@ Definition kw_code (k : kw) : nat :=
   | Kstruct => 0 | Ktrait => 1 | Kimpl => 2 | Kfor => 3 | Kwhere => 4 | Kforall => 5 | Kmut => 6
   | Kstatic => 7 | Kerased => 8 | Kupstream => 9 | Kfundamental => 10 | Kphantom_data => 11
   | Kauto => 12 | Kmarker => 13 | Knon_enumerable => 14 | Kcoinductive => 15 | Kobject_safe => 16
-  | Kone_zst => 17 | Kstr => 18 | Kconst => 19 | Kenum => 20 | Kint => 21 | Kfloat => 22
+  | Kone_zst => 17 | Kstr => 18 | Kconst => 19 | Kenum => 20 | Kint => 21 | Kfloat => 22 | Kfn => 23 | Kunsafe => 24 | Kdyn => 25 | Krepr => 26 | KC => 27 | Kpacked => 28
   | Kscalar s => 100 + scalar_code s
   end.
 
 Definition punct_code (p : punct) : nat :=
   match p with
   | PLt => 0 | PGt => 1 | PLParen => 2 | PRParen => 3 | PLBrace => 4 | PRBrace => 5 | PLBracket => 6
-  | PRBracket => 7 | PComma => 8 | PColon => 9 | PAmp => 10 | PBang => 11 | PHash => 12 | PStar => 13 | PSemi => 14
+  | PRBracket => 7 | PComma => 8 | PColon => 9 | PAmp => 10 | PBang => 11 | PHash => 12 | PStar => 13 | PSemi => 14 | PArrow => 15 | PDots => 16 | PPlus => 17
   end.
 
 Definition tok_eqb (a b : tok) : bool :=
@@ -89,6 +89,22 @@ Fixpoint ity_eqb (a b : ity) {struct a} : bool :=
   | TSlice t, TSlice t' => ity_eqb t t'
   | TArray t c, TArray t' c' => ity_eqb t t' && ikonst_eqb c c'
   | TStr, TStr | TNever, TNever => true
+  | TFn nb u v xs r, TFn nb' u' v' ys r' =>
+      Nat.eqb nb nb' && Bool.eqb u u' && Bool.eqb v v' && ity_eqb r r' &&
+      (fix go (l1 l2 : list ity) : bool :=
+         match l1, l2 with
+         | [], [] => true
+         | x :: r1, y :: r2 => ity_eqb x y && go r1 r2
+         | _, _ => false
+         end) xs ys
+  | TDyn bs l, TDyn bs' l' =>
+      ilt_eqb l l' &&
+      (fix go (l1 l2 : list idbound) : bool :=
+         match l1, l2 with
+         | [], [] => true
+         | x :: r1, y :: r2 => idbound_eqb x y && go r1 r2
+         | _, _ => false
+         end) bs bs'
   | _, _ => false
   end
 with igarg_eqb (a b : igarg) {struct a} : bool :=
@@ -98,6 +114,17 @@ with igarg_eqb (a b : igarg) {struct a} : bool :=
   | GCVal x, GCVal y => N.eqb x y
   | GCVar x, GCVar y => ivar_eqb x y
   | _, _ => false
+  end
+with idbound_eqb (a b : idbound) {struct a} : bool :=
+  match a, b with
+  | DB ks t xs, DB ks' t' ys =>
+      list_eqb kind_eqb ks ks' && Nat.eqb t t' &&
+      (fix go (l1 l2 : list igarg) : bool :=
+         match l1, l2 with
+         | [], [] => true
+         | x :: r1, y :: r2 => igarg_eqb x y && go r1 r2
+         | _, _ => false
+         end) xs ys
   end.
 Definition iwc_eqb (a b : iwc) : bool :=
   match a, b with
@@ -110,7 +137,7 @@ Definition kinds_eqb' := list_eqb kind_eqb.
 Definition iqwc_eqb (a b : iqwc) : bool := kinds_eqb' (fst a) (fst b) && iwc_eqb (snd a) (snd b).
 Definition sflags_eqb (a b : sflags) : bool :=
   Bool.eqb a.(sf_upstream) b.(sf_upstream) && Bool.eqb a.(sf_fundamental) b.(sf_fundamental) && Bool.eqb a.(sf_phantom_data) b.(sf_phantom_data)
-  && Bool.eqb a.(sf_one_zst) b.(sf_one_zst).
+  && Bool.eqb a.(sf_one_zst) b.(sf_one_zst) && Bool.eqb a.(sf_repr_c) b.(sf_repr_c) && Bool.eqb a.(sf_repr_packed) b.(sf_repr_packed).
 Definition tflags_eqb (a b : tflags) : bool :=
   Bool.eqb a.(tf_auto) b.(tf_auto) && Bool.eqb a.(tf_marker) b.(tf_marker) && Bool.eqb a.(tf_upstream) b.(tf_upstream)
   && Bool.eqb a.(tf_fundamental) b.(tf_fundamental) && Bool.eqb a.(tf_non_enumerable) b.(tf_non_enumerable)
